@@ -187,6 +187,12 @@ let lv t = match parse_v t with VL x -> x | _ -> failwith "l expected"
 let nv t = match parse_v t with VN x -> x | _ -> failwith "n expected"
 let bv t = match parse_v t with VB x -> x | _ -> failwith "b expected"
 let zv t = match parse_v t with VZ x -> x | _ -> failwith "z expected"
+(* the password database of --all-users: "N", or a list token (pw_dir, decimal pw_uid)* *)
+let users_of (t : ostr) : (n list * n) list option =
+  if t = "N" then None
+  else Some (List.map (fun (h, u) ->
+    (h, n_of_int (int_of_string (String.concat "" (List.map (fun c -> String.make 1 (Char.chr (int_of_n c))) u)))))
+    (pairs_of (lv t)))
 
 let () =
   try
@@ -202,16 +208,16 @@ let () =
                         po_forced_volume = opt_of_str (sv fv); po_home_fallback = bv hf; po_verbose = nv verbose;
                         po_environ = pairs_of (lv env); po_uid = nv uid; po_fuel = nat_of_int (int_of_n (nv fuel)) } in
               prun pn (run_oracle (put_main o) (split_answers answers))
-          | "run_list" :: tds :: size :: files :: env :: uid :: answers ->
+          | "run_list" :: tds :: size :: files :: env :: uid :: users :: answers ->
               let o = { lo_trash_dirs = lv tds; lo_size = bv size; lo_files = bv files;
-                        lo_environ = pairs_of (lv env); lo_uid = nv uid } in
+                        lo_environ = pairs_of (lv env); lo_uid = nv uid; lo_all_users = users_of users } in
               prun pn (run_oracle (list_main o) (split_answers answers))
-          | "run_empty" :: tds :: inter :: days :: dry :: verbose :: env :: uid :: answers ->
+          | "run_empty" :: tds :: inter :: days :: dry :: verbose :: env :: uid :: users :: answers ->
               let o = { eo_trash_dirs = lv tds;
                         eo_interactive = (match int_of_n (nv inter) with 0 -> None | 1 -> Some true | _ -> Some false);
                         eo_days = (if days = "N" then None else Some (zv days));
                         eo_dry_run = bv dry; eo_verbose = nv verbose;
-                        eo_environ = pairs_of (lv env); eo_uid = nv uid } in
+                        eo_environ = pairs_of (lv env); eo_uid = nv uid; eo_all_users = users_of users } in
               prun pn (run_oracle (empty_main o) (split_answers answers))
           | "run_rm" :: args :: env :: uid :: answers ->
               let o = { ro_args = lv args; ro_environ = pairs_of (lv env); ro_uid = nv uid } in
